@@ -355,6 +355,10 @@ func (in *instr) stmts(list []ast.Stmt, critical bool) ([]ast.Stmt, bool) {
 		if unlocks && !deferUnlock {
 			critical = false
 		}
+		if critical && nestedUnlock(s) {
+			// released inside the branches of a compound statement
+			critical = false
+		}
 		outl = append(outl, s)
 	}
 	return outl, critical
@@ -459,6 +463,31 @@ func (in *instr) isChanRange(x *ast.RangeStmt) bool {
 		return isChan
 	}
 	return false
+}
+
+// nestedUnlock reports a non-deferred X.Unlock() in the nested statement lists
+// of a compound statement.
+func nestedUnlock(s ast.Stmt) bool {
+	switch s.(type) {
+	case *ast.SelectStmt, *ast.SwitchStmt, *ast.TypeSwitchStmt, *ast.IfStmt, *ast.BlockStmt, *ast.ForStmt, *ast.RangeStmt:
+	default:
+		return false
+	}
+	found := false
+	ast.Inspect(s, func(n ast.Node) bool {
+		switch x := n.(type) {
+		case *ast.FuncLit, *ast.DeferStmt:
+			return false
+		case *ast.ExprStmt:
+			if call, ok := x.X.(*ast.CallExpr); ok {
+				if sel, ok := call.Fun.(*ast.SelectorExpr); ok && len(call.Args) == 0 && (sel.Sel.Name == "Unlock" || sel.Sel.Name == "RUnlock") {
+					found = true
+				}
+			}
+		}
+		return true
+	})
+	return found
 }
 
 // lockCalls reports X.Lock() / X.Unlock() calls made directly by s.
